@@ -24,3 +24,21 @@ pub(crate) fn mk_schema_static(
 }
 
 pub(crate) static NODES_LONG: [SchemaNode<'static>; 1] = [SchemaNode::Long];
+
+/// const constructors for nodes whose components have fields private to `crate::schema`
+pub(crate) const fn anon_name() -> Name {
+	Name { fully_qualified_name: String::new(), namespace_delimiter_idx: None }
+}
+pub(crate) const fn fixed_node(size: usize) -> SchemaNode<'static> {
+	SchemaNode::Fixed(Fixed { size, name: anon_name() })
+}
+pub(crate) const fn decimal_bytes_node(scale: u32) -> SchemaNode<'static> {
+	SchemaNode::Decimal(Decimal { _precision: 38, scale, repr: DecimalRepr::Bytes })
+}
+pub(crate) const fn decimal_fixed_node(size: usize, scale: u32) -> SchemaNode<'static> {
+	SchemaNode::Decimal(Decimal {
+		_precision: 38,
+		scale,
+		repr: DecimalRepr::Fixed(Fixed { size, name: anon_name() }),
+	})
+}
